@@ -109,10 +109,14 @@ void World::CheckFailures(const InvRecord& r) {
       stats->n["missing_source_needed"]++;
       stats->nontrivial["C05"] = true;
       std::string all = r.res.err + r.res.out;
+      // (bringing the manifest itself up to date comes first and is not part of the build that needs the file:
+      // the generator's command does not count as "a command run before the report")
+      long started = 0;
+      for (const SpawnRec& x : r.spawns) if (!sc.stmts[x.stmt].regen) started++;
       // (another error may legitimately come first - an unknown target, say - as long as nothing is started)
-      if (r.res.exit_code == 0 || (all.find("missing and no known rule to make it") == std::string::npos && !r.spawns.empty()))
+      if (r.res.exit_code == 0 || (all.find("missing and no known rule to make it") == std::string::npos && started > 0))
         Report("C05", "missing_source_ignored", "source " + missing_source + " is missing and a needed statement names it as an input, but ninja " + (r.res.exit_code == 0 ? "exited with status 0" : "did not say so"));
-      else if (!r.spawns.empty()) {
+      else if (started > 0) {
         // "before anything is started" only holds for what the manifest alone says: a need that
         // a dyndep file produced in this very build reveals cannot be known earlier
         bool needed_by_manifest = false;
@@ -128,7 +132,7 @@ void World::CheckFailures(const InvRecord& r) {
           for (auto* v : {&s.oo_ins, &s.validations}) for (auto& q : *v) todo.push_back(q);
         }
         if (needed_by_manifest)
-          Report("C05", "missing_source_ignored", "source " + missing_source + " is missing; ninja reported it only after starting " + S((long)r.spawns.size()) + " command(s)");
+          Report("C05", "missing_source_ignored", "source " + missing_source + " is missing; ninja reported it only after starting " + S(started) + " command(s)");
       }
     }
     return;
